@@ -127,7 +127,7 @@ impl Finalize for Node {
             return;
         }
         ev!("F{}:{}", self.idc.get(), b01(is_tracing()));
-        let _cb = InCallback::enter_fd();
+        let _cb = InCallback::enter_fd(b'F');
         // C05 oracles: at most once per arming; never with the feature off; everything reachable from a
         // finalizing object is still undropped
         {
@@ -178,7 +178,7 @@ impl Drop for Node {
                 ev!("!drop-unfinalized:{}", id);
             }
         }
-        let _cb = InCallback::enter_fd();
+        let _cb = InCallback::enter_fd(b'D');
         self.canary.set(DEAD);
         if tick(&it.f_drop) {
             raise_logged();
@@ -193,13 +193,15 @@ impl InCallback {
     fn enter() -> InCallback {
         let it = it();
         it.cb_depth.set(it.cb_depth.get() + 1);
+        it.cb_kinds.borrow_mut().push(b'K');
         InCallback(false)
     }
     /// a finalizer or destructor of a payload value (the collector flags are certainly set)
-    fn enter_fd() -> InCallback {
+    fn enter_fd(kind: u8) -> InCallback {
         let it = it();
         it.cb_depth.set(it.cb_depth.get() + 1);
         it.fd_depth.set(it.fd_depth.get() + 1);
+        it.cb_kinds.borrow_mut().push(kind);
         InCallback(true)
     }
 }
@@ -207,6 +209,7 @@ impl Drop for InCallback {
     fn drop(&mut self) {
         let it = it();
         it.cb_depth.set(it.cb_depth.get() - 1);
+        it.cb_kinds.borrow_mut().pop();
         if self.0 {
             it.fd_depth.set(it.fd_depth.get() - 1);
         }
@@ -281,6 +284,8 @@ pub struct Interp {
     action_runs: RefCell<HashMap<usize, usize>>,
     /// number of finalizer / destructor / cleaning-action callbacks currently running
     cb_depth: Cell<usize>,
+    /// kinds of the callbacks currently running, innermost last (b'F' finalizer, b'D' destructor, b'K' cleaning action)
+    cb_kinds: RefCell<Vec<u8>>,
     /// number of `Finalize::finalize` / `Drop::drop` callbacks of payload values currently running
     fd_depth: Cell<usize>,
     /// explicit `collect_cycles()` calls made during the current top-level operation
@@ -361,6 +366,7 @@ impl Interp {
             fin_counts: RefCell::new(HashMap::new()),
             action_runs: RefCell::new(HashMap::new()),
             cb_depth: Cell::new(0),
+            cb_kinds: RefCell::new(Vec::new()),
             fd_depth: Cell::new(0),
             explicit_collects: Cell::new(0),
             alloc_attempts: Cell::new(0),
@@ -630,6 +636,21 @@ impl Interp {
         ev!("A{}:{}", n.idc.get(), size);
         if cc_finalized(cc) == 1 {
             self.born_finalized.borrow_mut().insert(n.idc.get());
+        }
+        self.oracle_born(n.idc.get(), cc_finalized(cc) == 1);
+    }
+
+    /// C05: an object created directly inside a finalizer reports `already_finalized()`; one created outside
+    /// every callback does not.
+    fn oracle_born(&self, id: usize, finalized: bool) {
+        if !self.feat.fin {
+            return;
+        }
+        let innermost = self.cb_kinds.borrow().last().copied();
+        match innermost {
+            Some(b'F') if !finalized => ev!("!born-unfinalized:{}", id),
+            None if finalized => ev!("!born-finalized-outside:{}", id),
+            _ => {}
         }
     }
 
@@ -950,6 +971,7 @@ impl Interp {
             if cc_finalized(&cc) == 1 {
                 self.born_finalized.borrow_mut().insert(id);
             }
+            self.oracle_born(id, cc_finalized(&cc) == 1);
             let mut r = self.registry.borrow_mut();
             if let Some(Some(b)) = r.get_mut(id) {
                 if b.box_addr != snap.box_addr {
